@@ -337,12 +337,24 @@ def r3(ctx, R='R01.3'):
                     last = s['lhs']['p'][-1]
                     if isinstance(last, dict) and last.get('n') == 'track_id' and norm(last.get('adt', '')) == adt:
                         eb = eb or ExprBuilder(b)
-                        writes.append((b, eb._rvalue(s['rv'], (), 0, (i, si)), s['ln']))
-        for b, v, ln in writes:
+                        writes.append((b, eb._rvalue(s['rv'], (), 0, (i, si)), s['ln'], i))
+        def uncycle(e):
+            """inside a loop the previous value of a place reads `phi(?cycle | place)`: the place"""
+            if e.kind == 'phi':
+                rest = [a for a in e.args if not (a.kind == 'unknown' or repr(a) == '?cycle')]
+                if len(rest) == 1:
+                    return rest[0]
+            return e
+
+        def plus_one(v):
+            return v.kind == 'bin' and v.name == 'Add' and uncycle(v.args[0]).kind == 'place' and \
+                uncycle(v.args[0]).fields[-1:] == ('track_id',) and v.args[1].kind == 'const' and \
+                v.args[1].const.get('v') == '1'
+        wblocks = {}
+        for b, v, ln, _wb in writes:
             ctx.read(b)
             n += 1
-            ok = v.kind == 'bin' and v.name == 'Add' and v.args[0].kind == 'place' and v.args[0].fields[-1:] == (
-                'track_id',) and v.args[1].kind == 'const' and v.args[1].const.get('v') == '1'
+            ok = plus_one(v) and v.args[1].const.get('v') == '1'
             ctx.check(ok, R, b, tname + ':counter-write', repr(v),
                       'the id counter of %s is written with %r (only `+= 1` keeps ids never re-issued)' % (tname, v), ln)
         ctx.check(len(writes) >= 1, R, adt, tname + ':counter-writes', '%d write site(s)' % len(writes),
@@ -351,8 +363,22 @@ def r3(ctx, R='R01.3'):
         lb = ctx.anchor(R, T.result_path(t))
         if lb is None:
             continue
-        n += check_new_ids(ctx, R, lb, tname, lambda e: e.kind == 'call' and F.get(e.name) and any(
-            w[0].npath == e.name for w in writes))
+        # a fresh id: the result of the function that increments the counter, or — when the increment is written in
+        # place — the very value an increment stores into the counter
+        mine = [w for w in writes if w[0].npath == lb.npath and plus_one(w[1])]
+        stored = {repr(w[1]) for w in mine}
+        sets = lb.find_calls('track::Track::set_track_id')
+        # (the counter itself, read after an increment that dominates every id assignment, holds the stored value)
+        after_inc = bool(mine) and all(any(lb.dominates(w[3], c.bb) for w in mine) for c in sets)
+
+        def is_fresh(e, writes=writes, stored=stored, after_inc=after_inc):
+            if e.kind == 'call' and F.get(e.name) and any(w[0].npath == e.name for w in writes):
+                return True
+            x = e.strip() if e.kind == 'call' else e
+            if repr(x) in stored:
+                return True
+            return after_inc and x.kind == 'place' and x.root == ('param', 1) and x.fields[-1:] == ('track_id',)
+        n += check_new_ids(ctx, R, lb, tname, is_fresh)
     for tname, t in T.TRACKERS.items():
         if not t['batch']:
             continue
@@ -455,9 +481,11 @@ def r4(ctx):
                 and hist.const.get('v') is False
             ctx.check(ok, R, lb, tname + ':merge(winner, candidate, history off)', '',
                       'merge_external is not called as (winner id, this candidate, [0], false)', me.ln)
-            conds = path_conditions(lb, me.bb)
-            ne = any(c.cmp() and c.cmp()[0] == 'Ne' for c in conds)
-            some = any(c.kind == 'discr' and c.variants == {'Some'} for c in conds)
+            from lib import expand_conditions
+            ne = some = True
+            for conds in expand_conditions(lb, path_conditions(lb, me.bb)):
+                ne = ne and any(c.cmp() and c.cmp()[0] == 'Ne' for c in conds)
+                some = some and any(c.kind == 'discr' and c.variants == {'Some'} for c in conds)
             n += 1
             ctx.check(ne and some, R, lb, tname + ':merge-only-when-winner-differs-from-candidate', '',
                       'merge_external is reachable without `winner present and winner != candidate`', me.ln)
@@ -543,6 +571,24 @@ def shared_counter(ctx, R):
                           'counter handed to the voting threads: %r (defined in %s)' % (cur, cur_b.npath.rsplit('::', 1)[-1]),
                           'every voting thread receives its own id counter (%r created inside the per-thread closure '
                           '%s): ids repeat across threads' % (cur, cur_b.npath.rsplit('::', 1)[-1]), c.ln)
+        if not found:
+            # the thread body is no longer a plain function called from the spawn closure (a worker struct with a run
+            # method, an inlined loop): decide on the creation sites — the constructor starts threads, and every id
+            # counter (an Arc<RwLock<u64>>) reachable from it is created in the constructor body itself, not in the
+            # per-thread closure
+            bodies = [nb] + all_closures(F, nb)
+            spawns = [c for cb in bodies for c in cb.find_calls('std::thread::spawn', 'std::thread::Builder::spawn')]
+            made = [(cb, c) for cb in bodies for c in cb.find_calls('std::sync::Arc::new')
+                    if 'RwLock<u64>' in cb.locals[c.dest['l']]]
+            if spawns and made:
+                found = True
+                per_thread = [(cb, c) for cb, c in made if cb is not nb]
+                ctx.check(not per_thread, R, nb, tname + ':one-shared-id-counter',
+                          'the id counter is created once, in the constructor body (%s)' % made[0][1].ln,
+                          'an id counter is created inside the per-thread closure %s: every voting thread receives '
+                          'its own counter and ids repeat across threads' % (
+                              per_thread[0][0].npath.rsplit('::', 1)[-1] if per_thread else ''),
+                          (per_thread or made)[0][1].ln)
         if not found:
             ctx.fail(R, nb, tname + ':one-shared-id-counter', 'ANCHOR-MISSING: the constructor does not start the voting threads')
 
